@@ -34,17 +34,18 @@ def cases(tier):
                 for t in itertools.product("QC", repeat=k):
                     cs.append(mk("".join(t), 900, 1, kb))
         return cs
+    # 4-unit templates with 2 items per unit did not finish in 30 CPU-minutes each: they stay at 1 item per unit
     for k in range(1, 5):
         for t in itertools.product("QC", repeat=k):
             for kb in (0, 6, 12):
-                cs.append(mk("".join(t), 6000, 3 if k <= 2 else 2, kb))
-    for t in ("QQQQQ", "QCQCQ", "CQQQC", "QQQQQQ", "QCQQCQ"):
+                cs.append(mk("".join(t), 6000, {1: 3, 2: 3, 3: 2, 4: 1}[k], kb))
+    for t in ("QQQQQ", "QCQCQ", "CQQQC"):
         cs.append(mk(t, 6000, 1, 0))
     return cs
 
 
 META = dict(
-    bounds=dict(units="every query/command template of 1..4 units (quick: 0..3 items per unit for 1 unit, 0..2 for 2 units, 0..1 for 3-4 units; thorough: 0..3 / 0..2) and selected 5..6-unit templates (thorough)", items="see units"),
+    bounds=dict(units="every query/command template of 1..4 units (quick: 0..3 items per unit for 1 unit, 0..2 for 2 units, 0..1 for 3-4 units; thorough: 0..3 for 1-2 units, 0..2 for 3 units, 0..1 for 4 units) and selected 5-unit templates (thorough)", items="see units"),
     outside=["more than 3 items per unit, other result types (every result function goes through the same delimiter routine)",
              
              "header texts other than the template's single-letter headers (dispatch is C02's subject)"],
